@@ -272,6 +272,16 @@ Section Restraint.
          (if moving && c_acc_work c then s_W s else n0 O)
          (if c_chg_k c && negb (c_nstages c =? 0) then s_FE s else n0 O).
 
+  (* colvarbias_restraint_harmonic::energy_difference / colvarbias_restraint_linear::energy_difference (replica exchange:
+     colvarmodule::energy_difference) of a restraint whose parameters do not move: the energy with the alternative force
+     constant (and, harmonic only, centres) at the current values minus the current energy; force constant, centres and
+     energy are put back.  (linear::change_configuration reads the force constant only.) *)
+  Definition rediff (c : rcfg) (s : rstate) (xs : list T) (k' : option T) (cen' : option (list T)) : T :=
+    let cen2 := match c_kind c, cen' with Harmonic, Some l => l | _, _ => s_centers s end in
+    let k2 := match k' with Some k => k | None => s_k s end in
+    let s' := mkSt cen2 (s_incr s) k2 (s_kincr s) (s_stage s) (s_first s) (s_W s) (s_FE s) in
+    nsub O (sumT (map pot3 (terms c s' xs))) (sumT (map pot3 (terms c s xs))).
+
   (* ---- run protocol ---- *)
   Inductive event :=
   | EStep (xs : list T)        (* the engine advances one step *)
